@@ -85,6 +85,10 @@ func (f *fuzzer) one(family, text string) {
 	if f.seenTx[text] {
 		return
 	}
+	if f.hist["hang"] >= 4 {
+		// every hang costs a watchdog period and leaves goroutines behind; a few are enough to report
+		return
+	}
 	f.seenTx[text] = true
 	if f.cur != nil {
 		f.cur.Truncate(0)
@@ -291,7 +295,10 @@ func cmdFuzz(args []string) error {
 		`select ?s from ?a where {?s ?p ?o} limit "9223372036854775807"^^type:int64;`,
 		`select ?s, ?lo from ?a where {?s "p"@[?lo,] ?o} order by ?lo;`,
 		`insert data into ?a {/u<a> "p"@[] "9223372036854775807"^^type:int64};`,
-		`insert data into ?a {/u<a> "p"@[] "-9223372036854775808"^^type:int64};`)
+		`insert data into ?a {/u<a> "p"@[] "-9223372036854775808"^^type:int64};`,
+		// several graphs that do not exist: every per-graph failure is reported, none blocks another
+		`insert data into ?nope1, ?nope2 {/u<a> "p"@[] /u<b>};`, `delete data from ?nope1, ?a, ?nope2 {/u<a> "p"@[] /u<b>};`,
+		`construct {?s "n"@[] ?o} into ?nope1, ?nope2 from ?a where {?s ?p ?o};`, `drop graph ?nope1, ?nope2;`, `create graph ?a, ?a;`)
 	for _, v := range valid {
 		f.one("valid", v)
 	}
